@@ -84,5 +84,6 @@ impl Interpreter {
 //@fn Interpreter::run_impl
 }
 //@fncases Interpreter::match_opcode in impl Interpreter
+//@prooffn OpCodes::wire_values spec/opcode_table.rs @ src/script/op_codes.rs
 } // verus!
 fn main() {}
